@@ -16,6 +16,9 @@ def check(ctx):
         "cannot land on the enclosing one; R7 every (key, value) conversion closure keeps key and value in place; R8 the key attachments are parked under "
         "identifies one delivered record (known finding K3: the key is the span id alone while a span with two parents "
         "in one trace is delivered as two copies with that id).")
+    ctx.explanation += (" R11 the delivery bundle: queues drained to their end with the registry filtered in place, closed = closed and empty, "
+                        "stale sets kept unless cancelable, shared sets fanned out to every parent, one sampling filter at the choke point, a scope "
+                        "records iff any parent is sampled, setting a local parent opens a scope, no-op only without a recording parent.")
     ctx.not_decided = ("'exactly once ... on no other', order across routes, arbitrary strings: values are moved, never "
                        "inspected (origins show only clone/to_vec/into), equality of contents is a runtime fact.")
     facts = ctx.facts("E")
@@ -39,3 +42,6 @@ def check(ctx):
         collector.rule_drain_keeps_live(ctx, c, "R9")
     # attachments made through the local parent of a span with parents in a sampled and an unsampled trace are recorded
     provrules.rule_scope_sampling(ctx, facts, "R10")
+    # what delivery as such needs (see props/common.py)
+    from .common import delivery_bundle
+    delivery_bundle(ctx, ctx.facts("E"), "R11")
